@@ -113,6 +113,14 @@ def k_tm(ctx, route, apid, count, service, subservice, msg_counter, dest_id, tim
         ok, u = attempt(tmm.PusTm.unpack, src, len(ts_b))
         if not ctx.check("tm.unpack", ok, "raised", exc_sig(u) if not ok else "", case, error=repr(u)):
             return
+    if service == 17 and route != "srv17":
+        # any service-17 telemetry (not only what the wrapper's constructor can build) decoded through the wrapper
+        ok, w = attempt(Service17Tm.unpack, src, len(ts_b))
+        if ctx.check("tm.unpack", ok, "raised", "srv17_of_general_tm/" + (exc_sig(w) if not ok else ""), case, error=repr(w)):
+            ok2, rp = attempt(w.pack)
+            ctx.check("tm.roundtrip", ok2 and bytes(rp) == want, "srv17_repack_of_general_tm", _octet_diff(bytes(rp), want, len(ts_b)) if ok2 else "raised", case,
+                      observed=bytes(rp) if ok2 else repr(rp), expected=want)
+            ctx.check("tm.srv17_views", _tm_fields(w.pus_tm) == {k: R.decode_tm(want, len(ts_b))[k] for k in _tm_fields(w.pus_tm)}, "fields_of_general_tm", "", case)
     got = _tm_fields(u)
     exp = R.decode_tm(want, len(ts_b))
     exp_f = {k: exp[k] for k in got}
@@ -367,6 +375,9 @@ def run(ctx):
              model_fed=r.random() < 0.5)
     for j in range(ctx.n(1500, 150_000)):
         k_view_history(ctx, ctx.seed * 1_000_003 + ctx.shard[0] * 100_003 + j)
+    for _ in range(ctx.n(120, 6000)):
+        k_tm(ctx, r.choice(("ctor", "composite")), rand_uint(r, 11), rand_uint(r, 14), 17, rand_uint(r, 8), rand_uint(r, 16), rand_uint(r, 16), rand_uint(r, 4), rand_uint(r, 3),
+             ts_of(r.choice(TS_LENS)), rand_bytes(r, r.randrange(0, 20)), model_fed=r.random() < 0.5)
     for n in range(0, 24):
         k_tm_wrong_type(ctx, r.getrandbits(11), r.getrandbits(14), rand_bytes(r, r.choice((0, 7, 16))).hex(), rand_bytes(r, n).hex())
     # rejection clause
